@@ -17,6 +17,7 @@ Record case := {
   c_required : bool;
   c_ups : list upstream;
   c_resps2 : list response;      (* what the upstreams send during the second call ([] = unchanged) *)
+  c_ep2 : endpoint;              (* the API the second call asks (a different API starts from a fresh client state) *)
   c_check_run : bool;            (* run B was performed *)
   (* run A: one FailoverGroup call on a fresh group *)
   o_ok : bool;
@@ -62,12 +63,20 @@ Definition unable_of (problems : list string) : list string :=
   let pre := problem_from_error_summary ++ "|" in
   flat_map (fun p => if String.prefix pre p then [substring (String.length pre) (String.length p - String.length pre) p] else []) problems.
 
+Definition ep_eqb (a b : endpoint) : bool :=
+  match a, b with
+  | EQuery, EQuery | ERange, ERange | EConfig, EConfig | EFlags, EFlags | EMetadata, EMetadata => true
+  | _, _ => false
+  end.
+
 Definition check_second (c : case) : option string :=
   match o_second c with
   | None => None
   | Some o =>
       let r1 := failover (c_ep c) (c_ups c) in
-      let r := failover (c_ep c) (set_resps (fo_state r1) (c_resps2 c)) in
+      (* cache entries and "unsupported API" flags are per API: another API sees the upstreams as a fresh client does *)
+      let st := if ep_eqb (c_ep c) (c_ep2 c) then fo_state r1 else c_ups c in
+      let r := failover (c_ep2 c) (set_resps st (c_resps2 c)) in
       if negb (list_eqb Z.eqb (zs (fo_contacts r)) (s_client o)) then Some "second-call-contact-counts"
       else
         match fo_outcome r with
